@@ -8,13 +8,21 @@ from props import Explorer, budget, std_dataset, respell, load_or_fail, tax_q, h
 
 # ------------------------------------------------------------------------------ helpers
 
-def canon_analysis(h, pairs=None, with_profiles=True, with_names=False):
+def canon_analysis(h, pairs=None, with_profiles=True, with_names=False, with_orders=False):
     """name-free canonical description of a loaded analysis and of its comparison results"""
     o = ob.Obs()
     ob.observe_load(h, o)
     out = {'forest': sorted(x.split('=', 1)[1] for x in o.get('forest')),
            'members': o.get('members'), 'genes': o.get('genes'), 'genomes': o.get('genomes'),
            'problems': list(o.problems)}
+    if with_orders:
+        # orders that follow the file (not compared between re-orderings of the file, but they must not depend on the
+        # hash seed): genes listed per cross-reference value, listings of genes / families / genomes
+        out['order_xref'] = sorted((v, [g.unique_id for g in gs]) for v, gs in
+                                   ((v, h.get_genes_by_external_id(v)) for v in list(h.external_id_mapper)))
+        out['order_genes'] = [g.unique_id for g in h.get_list_extant_genes()]
+        out['order_tops'] = [str(k) for k in h.get_dict_top_level_hogs()]
+        out['order_genome_genes'] = sorted((g.name, [x.unique_id for x in g.genes]) for g in h.get_list_extant_genomes())
     if with_names:
         out['agname'] = o.get('agname')
     gs = genomes_of(h)
@@ -85,16 +93,21 @@ def c13(tier, seed):
         with open(os.path.join(d, 'x.orthoxml'), 'w') as f: f.write(xml_lines)
         with open(os.path.join(d, 'x1.orthoxml'), 'w') as f: f.write(xml_one)
         with gzip.open(os.path.join(d, 'x.orthoxml.gz'), 'wt') as f: f.write(xml_lines)
+        # a gzip file made of several members (cat a.gz b.gz, pigz -i, bgzip): the first member ends inside the document
+        raw = xml_lines.encode()
+        cut1, cut2 = len(raw) // 3, 2 * len(raw) // 3
+        with open(os.path.join(d, 'xm.orthoxml.gz'), 'wb') as f:
+            f.write(gzip.compress(raw[:cut1]) + gzip.compress(raw[cut1:cut2]) + gzip.compress(raw[cut2:]))
         # the same document made large (> 1 MiB, many lines, one very long line) with XML comments only
         pad = ''.join('<!-- padding line %06d %s -->\n' % (i, 'x' * 40) for i in range(22000)) + '<!-- ' + 'y' * 200000 + ' -->\n'
         xml_big = xml_lines.replace('<groups>', pad + '<groups>', 1)
         with open(os.path.join(d, 'xbig.orthoxml'), 'w') as f: f.write(xml_big)
         configs = []
-        for tree_kind in ('newick_string', 'newick', 'newick_noint', 'phyloxml'):
+        for tree_kind in ('newick_string', 'newick', 'newick_noint') + (('phyloxml',) if D.T[0] != '' else ()):
             for naming in ('own', 'synth'):
                 if tree_kind == 'newick_noint' and naming == 'own':
                     continue
-                for transport in ('string', 'string1', 'file', 'file1', 'gz', 'bigfile', 'bigstring'):
+                for transport in ('string', 'string1', 'file', 'file1', 'gz', 'gzmulti', 'bigfile', 'bigstring'):
                     for prog in (False, True):
                         tags = leaf_tags if tree_kind == 'phyloxml' else [None]
                         for lt in tags:
@@ -134,6 +147,8 @@ def c13(tier, seed):
                 kw.update(hog_file=os.path.join(d, 'x1.orthoxml'))
             elif transport == 'bigfile':
                 kw.update(hog_file=os.path.join(d, 'xbig.orthoxml'))
+            elif transport == 'gzmulti':
+                kw.update(hog_file=os.path.join(d, 'xm.orthoxml.gz'))
             elif transport == 'bigstring':
                 kw.update(hog_file=xml_big, orthoXML_as_string=True)
             else:
@@ -237,6 +252,11 @@ def rewrite_dataset(rng, D):
     E.base_groups = list(E.groups)
     if rng.random() < 0.8:
         E.groups = gen.nest_paralogs(rng, E.groups, prob=0.9); E.meta['nested'] = True
+    if D.naming == 'own' and rng.random() < 0.3:
+        # labels that name a clade above the level: adding / changing TaxRange labels must not change anything
+        E.groups, nchg = gen.mislabel(rng, D.T, E.groups)
+        if nchg:
+            E.meta['mislabelled'] = nchg
     return E
 
 def strip_anns(c):
@@ -452,6 +472,12 @@ def c15(tier, seed):
             h.create_tree_profile()
             coherent('after the whole-dataset tree profile')
             ex.res.count('lookups_after_lazy_genome_creation')
+            ids_ = lambda xs: sorted(map(id, xs))
+            bad += orc.fresh_results([
+                ('get_list_top_level_hogs', h.get_list_top_level_hogs, ids_), ('get_list_extant_genes', h.get_list_extant_genes, ids_),
+                ('get_list_extant_genomes', h.get_list_extant_genomes, ids_), ('get_list_ancestral_genomes', h.get_list_ancestral_genomes, ids_)] +
+                [('get_genes_by_external_id(%r)' % v, (lambda v=v: h.get_genes_by_external_id(v)), lambda xs: [x.unique_id for x in xs])
+                 for v in list(xm)[:4]])
             expect_key(h.get_gene_by_id, 'no-such-gene')
             expect_key(h.get_genes_by_external_id, 'no-such-xref')
             expect_key(h.get_hog_by_id, 'no-such-hog')
@@ -532,6 +558,63 @@ def c15(tier, seed):
                 ex.fail(cid + '-amb', D2, ['tree with %s raised %s instead of KeyError' % (what, type(e).__name__)])
             D2 = gen.Dataset(T2, 'own' if own else 'synth')
             ex.submit('%s-amb%d' % (cid, ex.res.hist['ambiguous_trees']), D2, o2.tags, ['txcheck'], emit=['tree'], hist=False)
+        # species_resolve_mode="OMA": a <species> named after a clade is attached to the clade's only child that looks like
+        # an OMA code and takes that leaf's name -- listings and lookups by name must agree there too
+        if D.naming == 'own':
+            import re as _re
+            done_ = False
+            for p_ in gen.paths(D.T):
+                t_ = gen.sub(D.T, p_)
+                codes = [i for i, k_ in enumerate(t_[1]) if len(k_[0]) == 5 and _re.match(r'[A-Z][A-Z0-9]{4}', k_[0])]
+                if t_[1] and len(codes) == 1 and not t_[1][codes[0]][1]:
+                    leaf = t_[1][codes[0]][0]
+                    idx = [i for i, (n_, _) in enumerate(D.species) if n_ == leaf]
+                    if len(idx) == 1:
+                        sp_ = list(D.species); sp_[idx[0]] = (t_[0], sp_[idx[0]][1])
+                        try:
+                            ho = core.load_py(D, species=sp_, species_resolve_mode='OMA')
+                            ex.res.count('oma_mode_loads')
+                            for g in ho.get_list_extant_genomes():
+                                if g.name != g.taxon.name:
+                                    ex.fail(cid + '-oma', D, ['OMA mode: the genome at leaf %r is called %r' % (g.taxon.name, g.name)], species=sp_)
+                                try:
+                                    if ho.get_extant_genome_by_name(g.name) is not g:
+                                        ex.fail(cid + '-oma', D, ['OMA mode: get_extant_genome_by_name(%r) returns another genome' % g.name], species=sp_)
+                                except KeyError:
+                                    ex.fail(cid + '-oma', D, ['OMA mode: listed genome %r raises KeyError when looked up by name' % g.name], species=sp_)
+                        except Exception as e:      # noqa
+                            ex.fail(cid + '-oma', D, ['OMA mode: a clade with one code child named as species was rejected: %s: %s' % (type(e).__name__, e)], species=sp_)
+                        done_ = True
+                if done_:
+                    break
+        # a legal tree in which a leaf carries the name of an internal node: it loads, but the lookup of that name among
+        # ALL taxa has two answers and must raise KeyError rather than pick one
+        if k % 4 == 0:
+            T3 = gen.rand_tree(ex.rng, maxleaves=6)
+            lv_ = [p for p in gen.paths(T3) if not gen.sub(T3, p)[1]]
+            in_ = [p for p in gen.paths(T3) if gen.sub(T3, p)[1]]
+            shared = gen.sub(T3, ex.rng.choice(in_))[0]
+            T3 = rename_at(T3, ex.rng.choice(lv_), shared)
+            D3 = gen.Dataset(T3, 'own')
+            o3 = ob.Obs(); q3 = []
+            ex.res.count('trees_leaf_named_like_a_clade')
+            try:
+                h3 = pyham.Ham(tree_file=gen.newick(T3) + ';', hog_file=gen.orthoxml([], []), orthoXML_as_string=True, use_internal_name=True)
+                o3.put('load', 'ok')      # (the model prints a txcheck line only for rejected trees)
+                for name in sorted(set(gen.display_name(T3, p, 'own') for p in gen.paths(T3))):
+                    try:
+                        r = taxS(pathof(h3.get_taxon_by_name(name)))
+                        if name == shared:
+                            ex.fail(cid + '-col', D3, ['get_taxon_by_name(%r) silently picked %s although two taxa carry that name' % (name, r)])
+                    except KeyError:
+                        r = 'err:KeyError'
+                        if name != shared:
+                            ex.fail(cid + '-col', D3, ['get_taxon_by_name(%r) raised KeyError for a unique name' % name])
+                    o3.put('lookup', 'taxon:%s=%s' % (name, r)); q3.append('(lookup taxon %s)' % gen.q(name))
+            except Exception as e:      # noqa
+                o3.put('txcheck', 'err:' + ob.err_name(e))
+                ex.fail(cid + '-col', D3, ['a tree with unique leaf names and unique internal names was rejected: %s: %s' % (type(e).__name__, e)])
+            ex.submit(cid + '-col', D3, o3.tags, ['txcheck', 'lookup'], emit=['tree'], queries=q3, hist=False)
     ex.finish()
     ex.close()
     return ex.res
@@ -556,13 +639,27 @@ def decorate_newick(rng, T, internal=True, lengths=False, support=False):
 def ete_struct(node):
     return (node.name, tuple(ete_struct(c) for c in node.children))
 
+def rename_at(T, p, name):
+    if not p:
+        return (name, T[1])
+    ks = list(T[1]); ks[p[0]] = rename_at(ks[p[0]], p[1:], name)
+    return (T[0], tuple(ks))
+
 def c18(tier, seed):
     import ete3
     ex = Explorer('C18', tier, seed)
     n = budget(tier, 250)
     for k in range(n):
-        T = gen.rand_tree(ex.rng, maxleaves=ex.rng.choice([2, 3, 4, 6, 9, 12]), fancy=ex.rng.random() < 0.6)
         naming = ex.rng.choice(['own', 'synth'])
+        T = gen.rand_tree(ex.rng, maxleaves=ex.rng.choice([2, 3, 4, 6, 9, 12]), fancy=ex.rng.random() < 0.6,
+                          unary=(0.15 if naming == 'own' and ex.rng.random() < 0.15 else 0.0))
+        if naming == 'own' and ex.rng.random() < 0.12:
+            # a leaf that carries the name of an internal node (a clade named after one of its species, a species named
+            # like a clade elsewhere): leaf names are still unique, internal names are still unique -- a legal tree
+            lv_ = [p for p in gen.paths(T) if not gen.sub(T, p)[1]]
+            in_ = [p for p in gen.paths(T) if gen.sub(T, p)[1]]
+            T = rename_at(T, ex.rng.choice(lv_), gen.sub(T, ex.rng.choice(in_))[0])
+            ex.res.count('trees_leaf_named_like_a_clade')
         lengths = ex.rng.random() < 0.4
         support = naming == 'synth' and ex.rng.random() < 0.3
         internal = naming == 'own' or (not support and ex.rng.random() < 0.5)
@@ -592,10 +689,18 @@ def c18(tier, seed):
             o.put('txname', '%s=%s|d=%d|leaf=%d' % (taxS(p), nd.name, nd.depth, 1 if nd.is_leaf() else 0))
             anc = nd.up; i = 1
             while anc is not None:
-                got = [pathof(x) for x in tx.get_path_up(nd, anc)]
+                first = tx.get_path_up(nd, anc)
+                got = [pathof(x) for x in first]
                 want_path = [p[:len(p) - j] for j in range(1, i)]
                 if got != want_path:
                     bad.append('get_path_up(%s,%s) = %s' % (taxS(p), taxS(pathof(anc)), got))
+                # the caller may do what it likes with the list it was given: the next query is not affected
+                try:
+                    first.append(anc); first.reverse()
+                    if [pathof(x) for x in tx.get_path_up(nd, anc)] != want_path:
+                        bad.append('get_path_up(%s,%s) changes after the caller modified an earlier result' % (taxS(p), taxS(pathof(anc))))
+                except AttributeError:
+                    pass        # (not a list: nothing to modify)
                 o.put('txpath', '%s>%s=%s' % (taxS(p), taxS(pathof(anc)), ','.join(taxS(x) for x in got)))
                 anc = anc.up; i += 1
         o.put('txnewick', tx.tree_str)
